@@ -3,6 +3,7 @@ import GeomV.C16.Spec
 import GeomV.C16.Layout
 import GeomV.C16.Reflect
 import GeomV.C16.WriterGen
+import GeomV.C16.Wrap
 /-!
 Driver for C16.  `geomv_c16 judge` reads lines `file … => <implementation's answer>` (grammar in
 `harness/cmd/c16/main.go`) and prints one verdict per line:
@@ -345,6 +346,9 @@ def fileKind (c : Case) : String :=
 
 def writerInContract (c : Case) : Bool :=
   let cols := colsOf c
+  -- the standing assumption of the check: header and attribute row below 2^15 bytes (go-shp's int16 counters; beyond
+  -- them `Wrap.lean` models what go-shp does and the `-wide` classes compare it, DIFF only)
+  decide (cols.length * 32 + 33 < 32768) && decide (1 + (cols.map (·.size)).sum < 32768) &&
   cols.all (fun col => Spec.nameInContract col.name && col.ty != 3) && distinctNames (cols.map (·.name)) &&
   (match c.w with
    | .s sfs _ => (sfs.filter fun sf => match sf.kind with | .geom _ => true | _ => false).length == 1 &&
@@ -459,6 +463,41 @@ def firstDiff : Tok → Tok → Nat → String
   | a :: _, [], i => s!"token {i}: model={a} impl=<end>"
   | [], b :: _, i => s!"token {i}: model=<end> impl={b}"
 
+/-! ## files beyond go-shp's 16-bit widths (`Wrap.lean`): model vs code only -/
+
+/-- the field list of a field-path case whose header or row does not fit go-shp's `int16` counters -/
+def wideFields (c : Case) : Option (Nat × List Field) :=
+  match c.w with
+  | .f t ffs =>
+    let fields := ffs.map fun f => (⟨name11 f.name, f.typ, f.size, f.prec⟩ : Field)
+    if Layout.hdrLen fields < 32768 ∧ Layout.recLen fields < 32768 then none else some (t, fields)
+  | _ => none
+
+def judgeWide (c : Case) (cls : String) (t : Nat) (fields : List Field) (rhsN filesTok : Tok) : String :=
+  match c.r with
+  | .f names =>
+    let recsB := c.recs.map fun r => (Layout.geom2ShpB r.1, r.2)
+    (match Wrap.runW t fields recsB with
+    | none => if rhsN == ["newenc-panic"] then s!"OK {cls}" else s!"DIFF {cls} {firstDiff ["newenc-panic"] rhsN 0}"
+    | some (files, res) =>
+      let r := Wrap.readW files.shp files.dbf names
+      let rows := r.rows.flatMap rowToks ++ (if r.panicked then ["PANIC"] else [])
+      let n := r.rows.length + (if r.panicked then 1 else 0)
+      let m : Tok := "W" :: res.map wresStr ++ "R" :: toString n :: rows ++ ["E", if r.err then "1" else "0"]
+      if m != rhsN then s!"DIFF {cls} {firstDiff m rhsN 0}"
+      else match filesTok with
+        | [_, "skipped", _] => s!"OK {cls}"
+        | [_, a, b, d] =>
+          (match hexTok a, hexTok b, hexTok d with
+          | some shp, some shx, some dbf =>
+            if shp != files.shp then s!"DIFF {cls} bytes-shp-differ {firstByteDiff files.shp shp 0}"
+            else if shx != files.shx then s!"DIFF {cls} bytes-shx-differ {firstByteDiff files.shx shx 0}"
+            else if dbf != files.dbf then s!"DIFF {cls} bytes-dbf-differ {firstByteDiff files.dbf dbf 0}"
+            else s!"OK {cls}"
+          | _, _, _ => s!"DIFF {cls} bytes-bad-hex")
+        | _ => s!"DIFF {cls} bytes-missing-in-answer")
+  | _ => s!"DIFF {cls} reader-outside-the-wide-model"
+
 def judgeLine (line : String) : String :=
   let (lhs, rhsAll) := splitArrow (tokens line)
   let rhs := rhsAll.takeWhile (· ≠ "FILES")
@@ -476,6 +515,9 @@ def judgeLine (line : String) : String :=
     let rhsN : Tok := match rhs with
       | [t] => if t.startsWith "newenc-panic" then ["newenc-panic"] else [t]
       | t => t
+    match wideFields c with
+    | some (t, fields) => judgeWide c (cls0 ++ "-wide") t fields rhsN filesTok
+    | none =>
     let m := modelOut c
     let bytesBad : Option String :=
       if rhsN.head? != some "W" then none
